@@ -198,6 +198,12 @@ def no_format_specs(chk, ctx, rule, fis) -> None:
                 bad.append(ast.unparse(n)[:60])
             if isinstance(n, ast.BinOp) and isinstance(n.op, ast.Mod) and isinstance(n.left, ast.Constant) and isinstance(n.left.value, str):
                 bad.append(ast.unparse(n)[:60])
+            # a number re-shaped on its way into the text: Decimal('2.00').normalize() is written 2 and read back as an int
+            if isinstance(n, ast.Call) and isinstance(n.func, ast.Attribute) and n.func.attr in (
+                    'normalize', 'quantize', 'to_integral', 'to_integral_value', 'to_integral_exact', 'as_integer_ratio', 'limit_denominator', '__round__'):
+                bad.append(ast.unparse(n)[:60])
+            if isinstance(n, ast.Call) and isinstance(n.func, ast.Name) and n.func.id in ('round', 'float', 'trunc', 'floor', 'ceil'):
+                bad.append(ast.unparse(n)[:60])
         chk.ob(rule, f'{fi.qualname}:plain_numbers', not bad, fi.loc,
                'numbers are written into the text with str()/repr() semantics only (no format specification that could round or re-format them)',
                got=bad[:3])
